@@ -132,7 +132,11 @@ def run_tlc(module, tier, out_path, workers=8, timeout=3600, extra_constants=Non
     open(cfg_path, "w").write(cfg_text)
     meta = os.path.join(WORK, "tlc", f"{tag}.meta")
     shutil.rmtree(meta, ignore_errors=True)
-    jopts = java_opts
+    # TLC unpacks its standard modules into java.io.tmpdir on every start and leaves them there: give it a private one
+    jtmp = os.path.join(WORK, "tlc", f"{tag}.tmp")
+    shutil.rmtree(jtmp, ignore_errors=True)
+    os.makedirs(jtmp, exist_ok=True)
+    jopts = java_opts + f" -Djava.io.tmpdir={jtmp}"
     if deque:
         jopts += " -Dtlc2.tool.queue.IStateQueue=StateDeque"
     cmd = ["java", "-XX:+UseParallelGC"] + jopts.split() + ["-cp", TLC_JAR_CP, "tlc2.TLC",
@@ -155,6 +159,7 @@ def run_tlc(module, tier, out_path, workers=8, timeout=3600, extra_constants=Non
         except subprocess.TimeoutExpired:
             raise ToolError(f"TLC timed out on {module} after {timeout}s")
     shutil.rmtree(meta, ignore_errors=True)
+    shutil.rmtree(jtmp, ignore_errors=True)
     st = dict(module=module, wall_s=round(time.time() - t0, 1), rc=p.returncode, generated=0,
               distinct=0, errors=[], violated=None)
     tail = []
